@@ -139,14 +139,41 @@ def _chain_shard(cfg_w):
     return acc
 
 
+def _judge_holes(ctx):
+    """Open object == file at that instant == file as a fresh object sees it."""
+    p = ctx["parsed"]
+    if p is None:
+        return [("unparsable", "file no longer parses")]
+    mem = [(e.type.value, int(e.format), int(e.offset), int(e.size), e.comment, kdriver.ts_floor(e.creation_date),
+            kdriver.ts_floor(e.last_modification_date)) for e in ctx["tdf"].entries]
+    disk = [(e["type"], e["format"], e["offset"], e["size"], e["comment"], e["ctime"], e["mtime"]) for e in p["entries"]]
+    if len(mem) != len(disk):
+        return [("table-length", f"object holds {len(mem)} entries, file {len(disk)}")]
+    for i, (m, d) in enumerate(zip(mem, disk)):
+        if (m[:4] != d[:4]) if d[0] == 0 else (m != d):
+            return [("memory-table!=disk", f"slot {i}: object {m} file {d}")]
+    with specs.lib().tdf.Tdf(ctx["path"]) as f2:
+        fresh = [(e.type.value, int(e.format), int(e.offset), int(e.size)) for e in f2.entries]
+    if fresh != [d[:4] for d in disk]:
+        return [("reopened!=disk", "a fresh object reads another table than the independent parser")]
+    return []
+
+
+def _holes(_):
+    return kcommon.hole_removal_shard(PROP, _judge_holes)
+
+
 def run(tier):
     acc = kcommon.run_configs(__name__, tier)
+    acc.merge(core.pmap(__name__, "_holes", [0]))
     small = kcommon.chain_configs(tier, deep=True)
     acc.merge(core.pmap(__name__, "_chain_shard", [c.to_witness() for c in small]))
     return acc
 
 
 def replay(w):
+    if w.get("holes"):
+        return kcommon.hole_replay(w, PROP, _judge_holes)
     if w.get("chain"):
         from . import c07
 
